@@ -18,8 +18,15 @@
     every visible package, link targets of the workspaces) and the P invariants are evaluated on
     it by an oracle that does not know the mechanism model.  A seed driven random scheduler over
     the same actors explores interleavings the model does not allow (mutated lock protocols).
-(C) thorough: N real OS processes (real blocking flock, no interposer) run install/use/gc loops on
-    one store; no operation may raise, the store invariants must hold at quiescence.
+(C) N real OS processes (real blocking flock) run install/use/gc/rm -rf loops on one store; no operation
+    may raise, the store invariants must hold at quiescence (thorough: also large rounds without
+    recorder).  Both tiers: the processes run under the recorder of checks/c15_trace.py (one event
+    per SharedStore action at its linearization point, emitted while the protecting flock is held,
+    ordered by a sequence number taken under a global recorder flock); TLC validates every trace
+    against specs/TraceSharedStore.tla (model of the code as it is, Weak = CODE_WEAK), evaluating
+    every P invariant in every state of the matched behaviour.  P false on a validated trace =>
+    violation under the signature of the (B) oracle; trace rejected without P violation =>
+    model_drift.  Self-test in every run: a corrupted field / a dropped event must be rejected.
 
 Verdict: P violated on the real store / an operation raising without injected fault => VIOLATION.
 Disagreement between code and mechanism model that does not violate P => model_drift.
@@ -39,6 +46,7 @@ import traceback
 from concurrent.futures import ThreadPoolExecutor
 
 from vf import common, tlc, evidence, fsint, sched
+from checks import c15_trace
 
 PROP = "C15"
 BIDS = {"b1": bytes([0x11]) * 20, "b2": bytes([0x22]) * 20}
@@ -1386,7 +1394,162 @@ def stress_worker(root, name, seed, nops, quota, q):
     q.put(out)
 
 
-def stress(rep, seed, nproc, nops, rounds):
+class _TraceWorld(World):
+    """paths + anchor map (World.classify/_track) for ONE real process of a traced round: no scheduler, no oracle"""
+
+    def __init__(self, root, names):       # noqa  (World.__init__ installs the deterministic scheduler: not here)
+        self.root = root
+        self.store = os.path.join(root, "store")
+        self.repo_json = os.path.join(self.store, "repo.json")
+        self.projects = {n: Project(self, n) for n in names}
+
+
+def trace_worker(root, name, names, seed, nops, quota, q, barrier=None):
+    """one real project process like stress_worker (real blocking flock), with the recorder of checks/c15_trace.py
+    hooked into bob.share / bob.builder of THIS process: one event per SharedStore action, see there."""
+    out = {"name": name, "errors": [], "ops": 0, "classified": [], "installed": 0}
+    try:
+        common.use_repo()
+        from bob import share as bshare, builder as bbuilder, utils as butils
+        from bob.tty import DummyTUIAction
+        tw = _TraceWorld(root, names)
+        proj = tw.projects[name]
+        os.makedirs(proj.dir, exist_ok=True)
+        seqr = c15_trace.Sequencer(root, name)
+        rec = c15_trace.Recorder(tw, proj, seqr, UNIT)
+        ip = fsint.Interposer(hook=rec.hook, record_reads=True)
+
+        def remove_path(p):
+            return ip._op("removePath", (os.path.normpath(p),), lambda: butils.removePath(p))
+        ip.install(bshare)
+        ip.install(bbuilder, extra={"BobState": _state_factory, "removePath": remove_path,
+                                    "stepMessage": lambda *a, **k: None,
+                                    "stepAction": lambda *a, **k: DummyTUIAction()})
+        for wn in ("warnRepoSize", "warnGcDidNotHelp"):
+            getattr(bshare, wn).show = lambda *a, **k: None
+        rng = random.Random(seed)
+        _tl.state = proj.state
+        spec = {"path": tw.store}
+        if quota != NOQUOTA:
+            spec["quota"] = quota * UNIT
+        hashes = {}
+        for b in BIDS:
+            t = os.path.join(root, "tmpl-%s-%s" % (name, b))
+            os.makedirs(t)
+            with open(os.path.join(t, "result.txt"), "wb") as f:
+                f.write(CONTENT[b])
+            hashes[b] = butils.hashDirectory(t)
+            shutil.rmtree(t)
+
+        def begin(kind, b=None, **params):
+            proj.reset_op()
+            proj.apilog.clear()
+            proj.kind, proj.b, proj.params = kind, b, params
+            rec.begin()
+
+        def forget():
+            shutil.rmtree(os.path.join(root, "proj", name), ignore_errors=True)
+            os.makedirs(proj.dir, exist_ok=True)
+            proj.state = FakeState()
+            _tl.state = proj.state
+        if barrier is not None:
+            barrier.wait(120)         # all processes of the round start their loops together
+        for k in range(nops):
+            b = rng.choice(sorted(BIDS))
+            r = rng.random()
+            try:
+                bld = bbuilder.LocalBuilder(0, False, False, False, False, [], None, False, True)
+                bld.setShareHandler(ShareRec(bshare.LocalShare(spec), proj.apilog))
+                bld.setShareMode(True, True)
+                if r < 0.22:
+                    pn = True if quota == NOQUOTA else rng.random() < 0.5
+                    begin("gc", pu=False, pn=pn)
+                    rec.mark("StartGc", pn=pn)
+                    bshare.LocalShare(spec).gc(False, pn)
+                elif r < 0.30 and os.path.lexists(proj.ws):
+                    begin(None)
+                    rec.mark("Unlink", fn=forget)         # rm -rf of the project by its user
+                else:
+                    begin("use", b)
+                    rec.mark("StartUse", b=b)
+                    shared, _ = bld._useSharedPackage(StepStub(proj.ws), BIDS[b])
+                    if not shared:
+                        if os.path.lexists(proj.ws):
+                            shutil.rmtree(proj.ws)
+                        if os.path.lexists(proj.audit):
+                            os.unlink(proj.audit)
+                        os.makedirs(proj.ws)
+                        with open(os.path.join(proj.ws, "result.txt"), "wb") as f:
+                            f.write(CONTENT[b])
+                        with open(proj.audit, "w") as f:
+                            f.write("%s:%d" % (name, k))
+                        proj.state.resetWorkspaceState(proj.ws, None)
+                        proj.state.setResultHash(proj.ws, hashes[b])
+                        begin("inst", b, mv=True)
+                        rec.mark("StartInst", b=b, mv=True)
+                        bld._installSharedPackage(StepStub(proj.ws), BIDS[b])
+                        if proj.apilog and proj.apilog[-1][0] == "inst" and proj.apilog[-1][2]:
+                            out["installed"] += 1
+                out["ops"] += 1
+            except BaseException as e:   # noqa
+                out["errors"].append("%s: %s\n%s" % (type(e).__name__, e, traceback.format_exc()[-1200:]))
+        seqr.close()
+    except BaseException as e:  # noqa
+        out["errors"].append("worker: %r\n%s" % (e, traceback.format_exc()[-1200:]))
+    q.put(out)
+
+
+def _trace_setup(root, rng, quota):
+    """initial store of a traced round, made through the real API by a project that disappears; returns the trace header"""
+    from bob import share as bshare, utils as butils
+    store = os.path.join(root, "store")
+    kind = rng.choice(["emptydir", "pop", "pop", "pop"])
+    S = []
+    if kind == "pop":
+        S = [b for b in sorted(BIDS) if rng.random() < 0.6]
+        rng.shuffle(S)
+        for b in S:
+            d = os.path.join(root, "proj", "Z", "dist")
+            ws = os.path.join(d, "workspace")
+            os.makedirs(ws)
+            with open(os.path.join(ws, "result.txt"), "wb") as f:
+                f.write(CONTENT[b])
+            with open(os.path.join(d, "audit.json.gz"), "w") as f:
+                f.write("Z:" + b)
+            bshare.LocalShare({"path": store}).installSharedPackage(ws, BIDS[b], butils.hashDirectory(ws), True)
+            shutil.rmtree(os.path.join(root, "proj", "Z"))
+        if not S:
+            with open(os.path.join(store, "repo.json"), "w") as f:
+                json.dump({"pkgs": {}}, f)
+    order = list(S)
+    rng.shuffle(order)
+    for i, b in enumerate(order):
+        h = BIDS[b].hex() + "-3"
+        ns = c15_trace.vtime_ns(i - len(order))
+        os.utime(os.path.join(store, h[0:2], h[2:4], h[4:], "pkg.json"), ns=(ns, ns))
+    return {"kind": kind, "repo": S, "order": order, "quota": quota}
+
+
+def _trace_end(root):
+    """the real store at quiescence, as the End event of the trace"""
+    tw = _TraceWorld(root, c15_trace.PROCS)
+    wsm = {}
+    for n, p in tw.projects.items():
+        if os.path.islink(p.ws):
+            wsm[n] = tw.bid_of_path(os.readlink(p.ws)) or "-"
+        else:
+            wsm[n] = "dir" if os.path.isdir(p.ws) else "none"
+    try:
+        with open(tw.repo_json) as f:
+            data = f.read()
+        n = len(json.loads(data).get("pkgs", {})) if data else 0
+    except OSError:
+        n = c15_trace.UNKNOWN
+    return {"e": "End", "p": "-", "b": "-", "ws": wsm, "vis": [b for b in sorted(BIDS) if os.path.isdir(tw.pkgdir(b))], "n": n}
+
+
+def stress(rep, seed, nproc, nops, rounds, traces=None):
+    """traces: list -> the rounds run under the recorder (trace_worker); their event traces are appended"""
     common.use_repo()
     from bob import utils as butils
     ctx = mp.get_context("fork")
@@ -1396,12 +1559,20 @@ def stress(rep, seed, nproc, nops, rounds):
         quota = [NOQUOTA, 1, 2, 3][(seed + rd) % 4]
         os.makedirs(os.path.join(root, "store"))
         q = ctx.Queue()
-        # a first install by a project that goes away (the creation of repo.json is covered deterministically by (B))
-        stress_worker(root, "Z", seed * 7919 + rd, 0, quota, q)
-        q.get()
-        _seed_store(root, quota)
-        procs = [ctx.Process(target=stress_worker, args=(root, "P%d" % i, seed * 7919 + rd * 101 + i, nops, quota, q))
-                 for i in range(nproc)]
+        if traces is None:
+            # a first install by a project that goes away (the creation of repo.json is covered deterministically by (B))
+            stress_worker(root, "Z", seed * 7919 + rd, 0, quota, q)
+            q.get()
+            _seed_store(root, quota)
+            procs = [ctx.Process(target=stress_worker, args=(root, "P%d" % i, seed * 7919 + rd * 101 + i, nops, quota, q))
+                     for i in range(nproc)]
+        else:
+            names = c15_trace.PROCS[:nproc]
+            hdr = _trace_setup(root, random.Random(seed * 104729 + rd), quota)
+            barrier = ctx.Barrier(nproc)
+            procs = [ctx.Process(target=trace_worker,
+                                 args=(root, n, names, seed * 7919 + rd * 101 + i, nops, quota, q, barrier))
+                     for i, n in enumerate(names)]
         for p in procs:
             p.start()
         outs = [q.get(timeout=600) for _ in procs]
@@ -1435,6 +1606,8 @@ def stress(rep, seed, nproc, nops, rounds):
                     rep.violation("stress-visible-package-incomplete", {"b": b, "round": rd, "error": repr(e)})
         try:
             repo = json.load(open(os.path.join(store, "repo.json"))).get("pkgs", {})
+        except FileNotFoundError:
+            repo = {}             # nothing was ever installed (traced rounds may start with an empty store directory)
         except (OSError, ValueError) as e:
             repo = "unreadable: %r" % e
         if not round_classified and repo != vis:
@@ -1448,6 +1621,11 @@ def stress(rep, seed, nproc, nops, rounds):
                 tot["dangling_links"] += 1
         tot["rounds"] += 1
         rep.evaluations += 1
+        if traces is not None:
+            evs = c15_trace.merge(root, names)
+            evs.append(_trace_end(root))
+            traces.append({"init": hdr, "ev": evs, "round": rd, "nproc": nproc,
+                           "failed": bool(round_classified or any(o["errors"] for o in outs))})
         shutil.rmtree(root, ignore_errors=True)
     return tot
 
@@ -1465,6 +1643,109 @@ def _seed_store(root, quota):
     spec = {"path": os.path.join(root, "store")}
     bshare.LocalShare(spec).installSharedPackage(ws, BIDS["b1"], butils.hashDirectory(ws), True)
     shutil.rmtree(os.path.join(root, "proj", "Z"))
+
+
+# P invariant of SharedStore violated on a validated real trace -> signature (the ones of the (B) oracle)
+TRACE_SIG = {
+    "NoDanglingUse": "use-then-gc-before-link-dangling",
+    "NoDanglingInst": "install-then-gc-before-link-dangling",
+    "NoDanglingLost": "lost-install-race-then-gc-before-link-dangling",
+    "NoDanglingLinked": "gc-collects-registered-linked-package",
+    "NoDanglingUnregistered": "linked-package-collected-registration-missing",
+    "NoDanglingDuring": "package-taken-into-use-during-gc-collected",
+    "NoGcFailEmptyStore": "gc-on-store-without-repo-json",
+    "NoJsonFailureGc": "gc-reads-empty-repo-json",
+    "NoJsonFailureInstall": "install-reads-empty-repo-json",
+    "NoJsonFailureUse": "use-reads-empty-pkg-json",
+    "NoInspectFailure": "gc-fails-user-link-vanished-during-check",
+    "SizeAccounting": "size-accounting-mismatch",
+    "LocksFreeAtQuiescence": "lock-held-at-quiescence",
+    "NoLockDeadlock": "deadlock",
+    "VisibleIsComplete": "visible-package-incomplete",
+    "HashMatches": "visible-package-hash-mismatch",
+    "InstalledOncePerBid": "package-replaced-in-place",
+}
+TRACE_SIG_POLICY = {"below-quota": "autoclean-removes-below-quota", "not-oldest": "autoclean-not-oldest-first",
+                    "unused-left": "autoclean-leaves-unused-package-over-quota"}
+TRACE_SIG_COLLECTED = {"inst": "install-returns-collected-package-dangling",
+                       "lost": "lost-install-race-returns-collected-package-dangling",
+                       "use": "use-returns-collected-package-dangling"}
+
+
+def trace_signatures(trace, viol):
+    """stable signatures of the P invariants that are false in state viol['at'] of the validated behaviour"""
+    ev = trace["ev"][viol["at"] - 1] if 0 < viol["at"] <= len(trace["ev"]) else {}
+    sigs = []
+    for inv in viol["inv"]:
+        if inv == "AutoCleanPolicy":
+            sigs += [TRACE_SIG_POLICY.get(x, "autoclean-policy:" + x) for x in viol["polviol"]]
+        elif inv == "NoDanglingLinkToCollected":
+            sigs.append(TRACE_SIG_COLLECTED.get(ev.get("api"), "use-returns-collected-package-dangling"))
+        else:
+            sigs.append(TRACE_SIG.get(inv, "trace-invariant:" + inv))
+    return sorted(set(sigs))
+
+
+def validate_real_traces(rep, traces, seed, work, note):
+    """(C) code -> spec: TLC (TraceSharedStore) validates the traces recorded from the real processes, evaluates every
+    P invariant in every state of the matched behaviours, and demonstrates the binding on tampered copies."""
+    rng = random.Random(seed * 65537 + 11)
+    bases = list(range(min(2, len(traces))))
+    batch = [{"init": t["init"], "ev": t["ev"]} for t in traces]
+    tampered = []                 # (index in batch, base, kind, what)
+    for i in bases:
+        for kind, fn in (("corrupt-field", c15_trace.corrupt_field), ("drop-event", c15_trace.drop_event)):
+            t2, what = fn(batch[i], rng)
+            tampered.append((len(batch), i, kind, what))
+            batch.append(t2)
+    res, ver = c15_trace.validate(batch, work, timeout=3000)
+    rep.add_tlc(res, "TraceSharedStore: %d real multi-process traces + %d tampered copies" % (len(traces), len(tampered)))
+    info = {"traces": len(traces), "events": sum(len(t["ev"]) for t in traces), "accepted": 0, "rejected": 0,
+            "p_violations_on_validated_traces": {}, "tlc_wall_s": round(res.wall, 1),
+            "actions_seen": sorted({e["e"] for t in traces for e in t["ev"]})}
+    for i, t in enumerate(traces):
+        v = ver[i]
+        rep.nontriv("trace-init:%s:%d" % (t["init"]["kind"], len(t["init"]["repo"])))
+        if v["viol"]:
+            # P is false in a state of the behaviour that the real events have been matched to
+            for sig in trace_signatures(t, v["viol"]):
+                info["p_violations_on_validated_traces"][sig] = info["p_violations_on_validated_traces"].get(sig, 0) + 1
+                rep.nontriv("violation:" + sig)
+                note(sig, {"found_by": "trace validation (TraceSharedStore) of a real multi-process run", "init": t["init"],
+                           "invariants": v["viol"]["inv"], "dangling": v["viol"]["dangling"], "err": v["viol"]["err"],
+                           "polviol": v["viol"]["polviol"], "state": v["viol"]["at"],
+                           "events": t["ev"][max(0, v["viol"]["at"] - 40):v["viol"]["at"]]})
+        if v["accepted"]:
+            info["accepted"] += 1
+            rep.traces += 1
+            if i < 2:
+                rep.sample({"real_trace": "round %d, %d processes, %d events, accepted" % (t["round"], t["nproc"], len(t["ev"])),
+                            "init": t["init"], "first_events": [(e["e"], e["p"], e["b"]) for e in t["ev"][:12]]})
+        else:
+            info["rejected"] += 1
+            e = t["ev"][v["matched"]]
+            if not v["viol"]:
+                rep.model_drift("real-process trace (round %d%s): TraceSharedStore rejects event %d %s"
+                                % (t["round"], ", an operation failed" if t["failed"] else "", v["matched"] + 1,
+                                   json.dumps(e, sort_keys=True)))
+            info.setdefault("first_rejection", {"round": t["round"], "event_index": v["matched"] + 1, "event": e,
+                                                "before": t["ev"][max(0, v["matched"] - 8):v["matched"]]})
+    # binding self-test: a tampered copy of an accepted trace must be rejected
+    st = []
+    for bi, base, kind, what in tampered:
+        if not ver[base]["accepted"]:
+            continue
+        v = ver[bi]
+        st.append({"base_round": traces[base]["round"], "tamper": kind, "what": what, "rejected_at_event": v["matched"] + 1,
+                   "rejected": not v["accepted"]})
+        if v["accepted"]:
+            raise RuntimeError("trace validation self-test: TraceSharedStore accepts a tampered trace (%s %r of round %d)"
+                               % (kind, what, traces[base]["round"]))
+    info["selftest"] = st if st else "no accepted base trace: binding self-test not possible in this run"
+    for x in st[:2]:
+        rep.sample({"trace_validation_selftest": x})
+    rep.extra["trace_validation"] = info
+    return info
 
 
 # ---------------------------------------------------------------------------------------------
@@ -1557,6 +1838,11 @@ def main():
         "gc --used (pruneUsed) without a configured quota is outside the domain (it raises TypeError in share.py:349 "
         "independently of concurrency; reported separately)",
         "a build-id determines the content: all projects produce the same content for the same build-id",
+        "(C) trace validation: the recorder makes every single anchor operation (not whole operations) of the real "
+        "processes atomic with the write of its event through a global flock on a counter file; lock acquisitions are "
+        "logged after the real blocking flock returned, releases before the real unlock; the order is the sequence "
+        "number, never time; pkg.json ages are set to a virtual time derived from the sequence number of the event "
+        "that wrote/touched the file (under the package lock); a project that seeded the store (Z) has been deleted",
     ]
     common.use_repo()
     import bob.share  # noqa: F401  (before fork)
@@ -1748,6 +2034,19 @@ def main():
             st = stress(rep, a.seed, nproc=6, nops=40, rounds=8)
             st["wall_s"] = round(time.time() - t0, 1)
             rep.extra["stress"] = st
+        # (C) real processes under the recorder, traces validated by TraceSharedStore (code -> spec)
+        t0 = time.time()
+        rtraces = []
+        if quick:
+            st = stress(rep, a.seed, nproc=3, nops=5, rounds=8, traces=rtraces)
+        else:
+            st = stress(rep, a.seed, nproc=3, nops=6, rounds=30, traces=rtraces)
+            st2 = stress(rep, a.seed + 1, nproc=4, nops=8, rounds=30, traces=rtraces)
+            for k in ("ops", "installed", "dangling_links", "rounds"):
+                st[k] += st2[k]
+        st["wall_s"] = round(time.time() - t0, 1)
+        rep.extra["traced_stress"] = st
+        validate_real_traces(rep, rtraces, a.seed, work, note)
     finally:
         pool.terminate()
         pool.join()
